@@ -192,12 +192,14 @@ CHECKS["C19"] = ("SseWire.tla",
     "is enumeration on the implementation.",
     "DESIGN.md 5 C19")
 
-CHECKS["C18"] = ("Url.tla",
+CHECKS["C18"] = ("Url.tla, TraceUrl.tla",
     "TLC model check of URL construction from (scheme, server, Host header, root, path, query) and of replace() on URL records "
     "(Built, ReplacedExactly); every behaviour replayed on the real URL class: environ and scope construction, wsgi/asgi "
-    "Request.url, replace(), repr(); query helpers checked as set/replace/remove on the multi-value query",
+    "Request.url, replace(), repr(); query helpers checked as set/replace/remove on the multi-value query; trace validation by TLC "
+    "of chains of replace() calls (TraceUrl.tla: TReplaced on every observed result, then Replace() itself)",
     "Schemes x named/IPv4/IPv6 hosts x default and other ports x Host header forms x roots x paths (non-ASCII) x queries; every "
-    "URL with a host x every set of 1-2 (thorough 3) components to replace x new values incl. removing user/password/port.",
+    "URL with a host x every set of 1-2 (thorough 3) components to replace x new values incl. removing user/password/port; 300 "
+    "(thorough 3000) chains of 25 (60) replace() calls of 1-3 components, each result the input of the next.",
     "Trusted: TLC, urllib.parse.urlsplit as the reader of the resulting URL, the token concretisation in the adapter.",
     "DESIGN.md 5 C18")
 
